@@ -63,8 +63,11 @@ func (r *R) nbtPayload(tag byte, depth int) any {
 	case tagList:
 		et := r.Byte()
 		n := r.Int()
-		if r.err == nil && (n < 0 || (et != tagEnd && int(n) > r.Remaining())) {
-			r.fail(fmt.Errorf("NBT list: length %d impossible", n))
+		if r.err == nil && (n < 0 || int(n) > r.Remaining() || (et == tagEnd && n > 0)) {
+			r.fail(fmt.Errorf("NBT list of type %d: length %d impossible with %d byte(s) left", et, n, r.Remaining()))
+			return nil
+		}
+		if r.err != nil {
 			return nil
 		}
 		out := make([]any, 0, n)
